@@ -162,7 +162,7 @@ Definition mysql_default_changed (from to : column) : bool :=
         else if N.eqb k MY_BOOL then
           match bool_value d1, bool_value d2 with
           | Some a, Some b => negb (Bool.eqb a b)
-          | _, _ => false
+          | _, _ => true       (* fix C02-mysql-bool-default-unknown-value: a value boolValue does not know *)
           end
         else if N.eqb k MY_INT then negb (equal_int_values d1 d2)
         else if N.eqb k MY_FLOAT || N.eqb k MY_DECIMAL then negb (equal_float_values d1 d2)
@@ -260,7 +260,11 @@ Definition parse_int_gt (lim : N) (s : str) : bool :=   (* strconv.ParseInt ok a
 Definition mysql_is_generated_index_name (_ : table) (idx : index) : bool :=
   if str_eqb (i_name idx) FUNCTIONAL_INDEX then true
   else match has_prefix FUNCTIONAL_INDEX (i_name idx ++ [ch_us]) with
-       | Some _ => false      (* strings.TrimLeft(name, name+"_") = "" : ParseInt fails *)
+       | Some _ =>            (* strings.TrimPrefix(name, f+"_"), ParseInt, i > 1 (fix C02-mysql-functional-index-suffix) *)
+           match has_prefix (FUNCTIONAL_INDEX ++ [ch_us]) (i_name idx) with
+           | Some rest => parse_int_gt 1 rest
+           | None => false
+           end
        | None =>
            match i_parts idx with
            | p :: _ =>
@@ -340,9 +344,10 @@ Definition pg_type_changed_ns (ns : str) (from to : column) : option bool :=
     let differ := negb (str_eqb (fld 0 (c_T from)) (fld 0 (c_T to))) in
     if pg_format_class k then Some differ
     else if N.eqb k PG_UDT then
-      (* toT.T != fromT.T && ns != "" && trimSchema(toT.T, ns) != trimSchema(fromT.T, ns) *)
-      Some (differ && negb (str_eqb ns [])
-            && negb (str_eqb (trim_schema ns (fld 0 (c_T to))) (trim_schema ns (fld 0 (c_T from)))))
+      (* toT.T != fromT.T && (ns == "" || trimSchema(toT.T, ns) != trimSchema(fromT.T, ns))
+         (fix C02-postgres-udt-type-without-scope) *)
+      Some (differ && (str_eqb ns []
+            || negb (str_eqb (trim_schema ns (fld 0 (c_T to))) (trim_schema ns (fld 0 (c_T from))))))
     else if N.eqb k PG_COMPOSITE || N.eqb k PG_DOMAIN || N.eqb k PG_ENUM
             || N.eqb k PG_CURRENCY || N.eqb k PG_XML then Some differ
     else if N.eqb k PG_ARRAY then
